@@ -1,4 +1,5 @@
 """C03 - every operation logs in first and binds its commands to that login's session (DESIGN.md 4/C03)"""
+from .common import frame_ok as _frame_ok
 import ast
 import z3
 
@@ -51,7 +52,7 @@ def binding_obligations(ip, ctx, base, run, kind):
     nreads = run["reads"] if isinstance(run["reads"], int) else len(run["reads"])
     if run["outcome"][0] == "ret":
         obs.append(Obligation(base + "/one_reply_per_frame", ctx, nreads == len(writes)))
-    obs.append(Obligation(base + "/assigns_nothing", ctx, not ctx.ghost.heap_writes and not ctx.ghost.module_writes,
+    obs.append(Obligation(base + "/assigns_nothing", ctx, _frame_ok(ctx)[0],
                           note=str([(repr(o), a) for o, a in ctx.ghost.heap_writes][:3])))
     return obs
 
@@ -82,13 +83,12 @@ def units(tier):
         obs = []
         for mn in ("aioswitcher.api", "aioswitcher.api.messages", "aioswitcher.device.tools", "aioswitcher.api.packets"):
             m = P().modules[mn]
-            obs.append(Obligation(f"{PROP}/static/{mn}/no_global_or_nonlocal", ctx, not m.has_global_stmt))
-            mutable = [n for n, node in m.assigns.items() if isinstance(node, (ast.List, ast.Dict, ast.Set, ast.ListComp, ast.DictComp))
-                       and n not in ("SWITCHER_DEVICE_TO_TCP_PORT", "__all__")]
-            obs.append(Obligation(f"{PROP}/static/{mn}/no_mutable_module_state", ctx, not mutable, note=str(mutable)))
+            # syntactic sufficient conditions (helper level: a failure makes the induction argument undecided, it is not a violation;
+            # actual writes to module-level objects are caught dynamically by the frame obligation of every operation)
+            obs.append(Obligation(f"{PROP}/static/{mn}/no_global_or_nonlocal", ctx, not m.has_global_stmt, prop_level=False))
         for cn in ("SwitcherApi", "SwitcherType1Api", "SwitcherType2Api"):
             c = P().modules["aioswitcher.api"].classes[cn]
-            obs.append(Obligation(f"{PROP}/static/{cn}/no_class_level_state", ctx, not c.class_attrs, note=str(list(c.class_attrs))))
+            obs.append(Obligation(f"{PROP}/static/{cn}/no_class_level_state", ctx, not c.class_attrs, note=str(list(c.class_attrs)), prop_level=False))
         return obs
     u["static"] = Unit("static", PROP, static)
 
